@@ -138,6 +138,10 @@ type (
 		updatedStreamsDuringTaggingJob bitmask.LongBitmask
 		resetStreamsDuringTaggingJob   bitmask.LongBitmask
 		addedStreamsDuringTaggingJob   bitmask.LongBitmask
+		// the tag the running tagging job evaluates and the streams that became
+		// pending on it through referenced tags while the job is running
+		taggingJobTag                    string
+		inheritedStreamsDuringTaggingJob bitmask.LongBitmask
 
 		changedStreamsDuringConverterJob bitmask.LongBitmask
 
@@ -603,6 +607,17 @@ func (mgr *Manager) inheritTagUncertainty() {
 					ti.Uncertain.Or(mgr.tags[rtn].Uncertain)
 				}
 			}
+			if mgr.taggingJobRunning && tn == mgr.taggingJobTag {
+				// the running job evaluates this tag with the old state of the
+				// referenced tags, remember what has to be evaluated again
+				if fullyInvalidated {
+					mgr.inheritedStreamsDuringTaggingJob = mgr.allStreams
+				} else {
+					for _, rtn := range ti.features.MainTags {
+						mgr.inheritedStreamsDuringTaggingJob = mgr.inheritedStreamsDuringTaggingJob.OrCopy(mgr.tags[rtn].Uncertain)
+					}
+				}
+			}
 			mgr.tags[tn] = ti
 		}
 	}
@@ -752,6 +767,8 @@ outer:
 		mgr.updatedStreamsDuringTaggingJob = bitmask.LongBitmask{}
 		mgr.resetStreamsDuringTaggingJob = bitmask.LongBitmask{}
 		mgr.addedStreamsDuringTaggingJob = bitmask.LongBitmask{}
+		mgr.inheritedStreamsDuringTaggingJob = bitmask.LongBitmask{}
+		mgr.taggingJobTag = n
 		mgr.taggingJobRunning = true
 		indexes, releaser := mgr.getIndexesCopy(0)
 		converters := make(map[string]index.ConverterAccess)
@@ -843,6 +860,8 @@ func (mgr *Manager) updateTagJob(name string, t tag, tagDetails map[string]query
 			for _, converter := range t.converters {
 				mgr.streamsToConvert[converter.Name()].Or(t.Matches)
 			}
+			// referenced tags changed while the job was running
+			t.Uncertain = mgr.inheritedStreamsDuringTaggingJob
 			mgr.tags[name] = &t
 			if !(mgr.updatedStreamsDuringTaggingJob.IsZero() && mgr.resetStreamsDuringTaggingJob.IsZero() && mgr.addedStreamsDuringTaggingJob.IsZero()) {
 				mgr.invalidateTags(mgr.updatedStreamsDuringTaggingJob, mgr.resetStreamsDuringTaggingJob, mgr.addedStreamsDuringTaggingJob)
